@@ -33,6 +33,11 @@ Record lshared := mkLS {
   llog : list lact;
   lsecs : list (nat * sec * bool);   (* ghost: the critical sections executed so far (thread, section, result), newest first *)
   lbad : bool;                       (* ghost: some local code marked `locked` ran while its thread did not hold the mutex *)
+  lunord : bool;                     (* ghost: some traversal visited a node although a node it had visited earlier, and
+                                        that was still in the list, did not stand before it *)
+  lcrec : list (nat * nat * nat * nat);
+                                     (* ghost: finished calls (thread, length of lsecs when the call began, position of the call's
+                                        section in the record — 0 if it has none —, length of lsecs when the call ended) *)
   ltravs : list (nat * nat * nat * list nat)
                                      (* ghost: finished traversals (thread, length of lsecs when it read head, length of
                                         lsecs when it ended, nodes it visited in order) *)
@@ -48,21 +53,26 @@ Record llocals := mkLL {
   (* ghosts of the traversal argument (CLConcProj.v) *)
   lvis : list nat;              (* nodes the current traversal has visited, oldest first *)
   lph : bool;                   (* the node the cursor stands on has been looked at; the next own step is the advance *)
-  lp0 : nat                     (* length of lsecs when the current traversal read head *)
+  lp0 : nat;                    (* length of lsecs when the current traversal read head *)
+  (* ghosts of the real-time-order argument *)
+  lb0 : nat;                    (* length of lsecs when the current call began *)
+  lsi : nat                     (* position of the current call's section in the record (1-based); 0: none yet *)
 }.
 
-Definition ll0 : llocals := mkLL None 0 None None 0 false [] false 0.
+Definition ll0 : llocals := mkLL None 0 None None 0 false [] false 0 0 0.
+Definition ll_begin (p : nat) : llocals := mkLL None 0 None None 0 false [] false 0 p 0.
 
-Definition ll_n l v := mkLL v (lk l) (lbefore l) (lcur l) (lcapt l) (lresb l) (lvis l) (lph l) (lp0 l).
-Definition ll_k l v := mkLL (ln l) v (lbefore l) (lcur l) (lcapt l) (lresb l) (lvis l) (lph l) (lp0 l).
-Definition ll_before l v := mkLL (ln l) (lk l) v (lcur l) (lcapt l) (lresb l) (lvis l) (lph l) (lp0 l).
-Definition ll_cur l v := mkLL (ln l) (lk l) (lbefore l) v (lcapt l) (lresb l) (lvis l) (lph l) (lp0 l).
-Definition ll_capt l v := mkLL (ln l) (lk l) (lbefore l) (lcur l) v (lresb l) (lvis l) (lph l) (lp0 l).
-Definition ll_resb l v := mkLL (ln l) (lk l) (lbefore l) (lcur l) (lcapt l) v (lvis l) (lph l) (lp0 l).
+Definition ll_n l v := mkLL v (lk l) (lbefore l) (lcur l) (lcapt l) (lresb l) (lvis l) (lph l) (lp0 l) (lb0 l) (lsi l).
+Definition ll_k l v := mkLL (ln l) v (lbefore l) (lcur l) (lcapt l) (lresb l) (lvis l) (lph l) (lp0 l) (lb0 l) (lsi l).
+Definition ll_before l v := mkLL (ln l) (lk l) v (lcur l) (lcapt l) (lresb l) (lvis l) (lph l) (lp0 l) (lb0 l) (lsi l).
+Definition ll_cur l v := mkLL (ln l) (lk l) (lbefore l) v (lcapt l) (lresb l) (lvis l) (lph l) (lp0 l) (lb0 l) (lsi l).
+Definition ll_capt l v := mkLL (ln l) (lk l) (lbefore l) (lcur l) v (lresb l) (lvis l) (lph l) (lp0 l) (lb0 l) (lsi l).
+Definition ll_resb l v := mkLL (ln l) (lk l) (lbefore l) (lcur l) (lcapt l) v (lvis l) (lph l) (lp0 l) (lb0 l) (lsi l).
 (* the traversal's ghosts: start (cursor := head), a look at the current node, the step to the next node *)
-Definition ll_start l (c : option nat) (p : nat) := mkLL (ln l) (lk l) (lbefore l) c (lcapt l) (lresb l) [] false p.
-Definition ll_look l (v : list nat) := mkLL (ln l) (lk l) (lbefore l) (lcur l) (lcapt l) (lresb l) v true (lp0 l).
-Definition ll_step l (c : option nat) := mkLL (ln l) (lk l) (lbefore l) c (lcapt l) (lresb l) (lvis l) false (lp0 l).
+Definition ll_start l (c : option nat) (p : nat) := mkLL (ln l) (lk l) (lbefore l) c (lcapt l) (lresb l) [] false p (lb0 l) (lsi l).
+Definition ll_look l (v : list nat) := mkLL (ln l) (lk l) (lbefore l) (lcur l) (lcapt l) (lresb l) v true (lp0 l) (lb0 l) (lsi l).
+Definition ll_step l (c : option nat) := mkLL (ln l) (lk l) (lbefore l) c (lcapt l) (lresb l) (lvis l) false (lp0 l) (lb0 l) (lsi l).
+Definition ll_si l (i : nat) := mkLL (ln l) (lk l) (lbefore l) (lcur l) (lcapt l) (lresb l) (lvis l) (lph l) (lp0 l) (lb0 l) i.
 
 Inductive linstr :=
 | JLock | JUnlock | JInc | JLoad | JStart
@@ -71,14 +81,16 @@ Inductive linstr :=
 | JLoop                           (* the while(node) loop of doForEachIf; mode in the thread *)
 | JRes | JDone.
 
-Definition ls_grp s v := mkLS v (lcc s) (lown s) (lregs s) (llog s) (lsecs s) (lbad s) (ltravs s).
-Definition ls_cc s v := mkLS (lgrp s) v (lown s) (lregs s) (llog s) (lsecs s) (lbad s) (ltravs s).
-Definition ls_own s v := mkLS (lgrp s) (lcc s) v (lregs s) (llog s) (lsecs s) (lbad s) (ltravs s).
-Definition ls_reg s h v := mkLS (lgrp s) (lcc s) (lown s) ((h, v) :: lregs s) (llog s) (lsecs s) (lbad s) (ltravs s).
-Definition ls_log s e := mkLS (lgrp s) (lcc s) (lown s) (lregs s) (e :: llog s) (lsecs s) (lbad s) (ltravs s).
-Definition ls_sec s e := mkLS (lgrp s) (lcc s) (lown s) (lregs s) (llog s) (e :: lsecs s) (lbad s) (ltravs s).
-Definition ls_bad s := mkLS (lgrp s) (lcc s) (lown s) (lregs s) (llog s) (lsecs s) true (ltravs s).
-Definition ls_trav s e := mkLS (lgrp s) (lcc s) (lown s) (lregs s) (llog s) (lsecs s) (lbad s) (e :: ltravs s).
+Definition ls_grp s v := mkLS v (lcc s) (lown s) (lregs s) (llog s) (lsecs s) (lbad s) (lunord s) (lcrec s) (ltravs s).
+Definition ls_cc s v := mkLS (lgrp s) v (lown s) (lregs s) (llog s) (lsecs s) (lbad s) (lunord s) (lcrec s) (ltravs s).
+Definition ls_own s v := mkLS (lgrp s) (lcc s) v (lregs s) (llog s) (lsecs s) (lbad s) (lunord s) (lcrec s) (ltravs s).
+Definition ls_reg s h v := mkLS (lgrp s) (lcc s) (lown s) ((h, v) :: lregs s) (llog s) (lsecs s) (lbad s) (lunord s) (lcrec s) (ltravs s).
+Definition ls_log s e := mkLS (lgrp s) (lcc s) (lown s) (lregs s) (e :: llog s) (lsecs s) (lbad s) (lunord s) (lcrec s) (ltravs s).
+Definition ls_sec s e := mkLS (lgrp s) (lcc s) (lown s) (lregs s) (llog s) (e :: lsecs s) (lbad s) (lunord s) (lcrec s) (ltravs s).
+Definition ls_bad s := mkLS (lgrp s) (lcc s) (lown s) (lregs s) (llog s) (lsecs s) true (lunord s) (lcrec s) (ltravs s).
+Definition ls_unord s := mkLS (lgrp s) (lcc s) (lown s) (lregs s) (llog s) (lsecs s) (lbad s) true (lcrec s) (ltravs s).
+Definition ls_trav s e := mkLS (lgrp s) (lcc s) (lown s) (lregs s) (llog s) (lsecs s) (lbad s) (lunord s) (lcrec s) (e :: ltravs s).
+Definition ls_call s e := mkLS (lgrp s) (lcc s) (lown s) (lregs s) (llog s) (lsecs s) (lbad s) (lunord s) (e :: lcrec s) (ltravs s).
 
 Definition holds (t : nat) (s : lshared) : bool := match lown s with Some u => Nat.eqb u t | None => false end.
 
@@ -101,7 +113,8 @@ Definition W32 : N := 4294967296.
                      let sc := x s l in
                      let '(g1, b) := sec_step (lgrp s) sc in
                      (ls_sec (ls_grp s g1) (t, sc, b),
-                      ll_resb (ll_n l (if adds sc then Some (length (heap (lgrp s))) else ln l)) (if adds sc then lresb l else b))).
+                      ll_si (ll_resb (ll_n l (if adds sc then Some (length (heap (lgrp s))) else ln l)) (if adds sc then lresb l else b))
+                            (S (length (lsecs s))))).
 
   Definition lcode_of (c : lapi) : list linstr :=
     match c with
@@ -139,7 +152,8 @@ Definition loop_body (mode : option Z) : list linstr :=
                             match node_of s n with
                             | Some nd =>
                                 if GenCL.visit_cond (ctr nd) (lcapt l)
-                                then (ls_log s (match mode with Some a => LaCall t (cb nd) a | None => LaVisit t (cb nd) end),
+                                then (ls_log (if ordered_visit (lgrp s) (lvis l) n then s else ls_unord s)     (* ghost *)
+                                              (match mode with Some a => LaCall t (cb nd) a | None => LaVisit t (cb nd) end),
                                       ll_look l (lvis l ++ [n]))
                                 else (s, ll_look l (lvis l))
                             | None => (s, l)
@@ -158,6 +172,9 @@ Definition loop_body (mode : option Z) : list linstr :=
         JUnlock; JLoop]
        []].
 
+(* ghost: the call of thread t that ends here, with its stamps *)
+Definition call_end (t : nat) (s : lshared) (l : llocals) : lshared := ls_call s (t, lb0 l, lsi l, length (lsecs s)).
+
 Fixpoint ladvance (fuel : nat) (t : nat) (s : lshared) (th : lthread) : lshared * lthread :=
   match fuel with
   | 0 => (s, th)
@@ -167,7 +184,7 @@ Fixpoint ladvance (fuel : nat) (t : nat) (s : lshared) (th : lthread) : lshared 
           match lcalls th with
           | [] => (s, mkLT [] [] (lloc th) true (lmode th))
           | c :: r =>
-              ladvance f t s (mkLT (lcode_of c) r ll0 false (match c with LInvoke x => Some x | _ => None end))
+              ladvance f t s (mkLT (lcode_of c) r (ll_begin (length (lsecs s))) false (match c with LInvoke x => Some x | _ => None end))
           end
       | i :: rest =>
           match i with
@@ -177,8 +194,8 @@ Fixpoint ladvance (fuel : nat) (t : nat) (s : lshared) (th : lthread) : lshared 
               let '(s1, l1) := fn t s0 (lloc th) in ladvance f t s1 (mkLT rest (lcalls th) l1 false (lmode th))
           | JIf c a b => ladvance f t s (mkLT ((if c s (lloc th) then a else b) ++ rest) (lcalls th) (lloc th) false (lmode th))
           | JLoop => ladvance f t s (mkLT (loop_body (lmode th) ++ rest) (lcalls th) (lloc th) false (lmode th))
-          | JRes => ladvance f t (ls_log s (LaRes t (lresb (lloc th)))) (mkLT rest (lcalls th) (lloc th) false (lmode th))
-          | JDone => ladvance f t (ls_log s (LaDone t)) (mkLT rest (lcalls th) (lloc th) false (lmode th))
+          | JRes => ladvance f t (call_end t (ls_log s (LaRes t (lresb (lloc th)))) (lloc th)) (mkLT rest (lcalls th) (lloc th) false (lmode th))
+          | JDone => ladvance f t (call_end t (ls_log s (LaDone t)) (lloc th)) (mkLT rest (lcalls th) (lloc th) false (lmode th))
           | _ => (s, th)
           end
       end
@@ -249,7 +266,7 @@ Fixpoint lrun (fuel : nat) (s : lshared) (ths : list lthread) (sch : list nat) :
       end
   end.
 
-Definition ls0 : lshared := mkLS empty_group 0 None [] [] [] false [].
+Definition ls0 : lshared := mkLS empty_group 0 None [] [] [] false false [] [].
 Definition lstart (progs : list (list lapi)) : list lthread := map (fun p => mkLT [JStart] p ll0 false None) progs.
 
 Definition lc_run_case (fuel : nat) (progs : list (list lapi)) (schedule : list nat) : list lact * list nat :=
